@@ -118,7 +118,7 @@ func runC04(c *Ctx) {
 				if shape != "once" {
 					want = strCat(strCat(strCat(want, cstStr("[")), Sym{K: "valid.ToStr(" + idx + ")"}), cstStr("]"))
 				}
-				if keyOf(want) == d.label {
+				if keyOf(want) == d.label || (shape == "elem" && keyOf(want) == normIndexText(d.label)) {
 					okLabel = true
 				}
 			}
@@ -211,7 +211,7 @@ func runC04Top(c *Ctx, wl *walkLayers) {
 		case parentKey(d.value) != "" && strings.HasPrefix(d.value, parentKey(d.value)+".Index("):
 			nElem++
 			idx := strings.TrimSuffix(strings.TrimPrefix(d.value, parentKey(d.value)+".Index("), ")")
-			if !strings.HasSuffix(d.label, `+"["+valid.ToStr(`+idx+`)+"]"`) {
+			if !strings.HasSuffix(normIndexText(d.label), `"["+valid.ToStr(`+idx+`)+"]"`) {
 				bad = append(bad, at+": top-level element is not labelled with the index used to fetch it: "+shorten(d.label, 100))
 			}
 			if !d.hasP || d.pkset&^kmask(reflect.Slice, reflect.Array) != 0 {
@@ -508,4 +508,10 @@ func runC04Strip(c *Ctx, rule string) {
 		}
 		c.Check(len(bad) == 0, rule, fnName(fn), "strip", fn.Pos(), "loop exits only with Kind() != Ptr", uniqJoin(bad, 2))
 	}
+}
+
+
+// normIndexText: an integer index rendered with strconv.Itoa is the same text as ToStr of it.
+func normIndexText(s string) string {
+	return strings.ReplaceAll(s, "strconv.Itoa(", "valid.ToStr(")
 }
